@@ -102,7 +102,9 @@ def _plan(case, r, roots):
     if target == "missing":
         objspec = r["missing"]
         how = "name" if how not in ("name", "syspath") else how
-    elif not source_layout:
+    elif layout != "pkg" and layout != "ns":
+        # by-path loading is only generated for package directories: the finder derives a wrong top-level name for a
+        # single-file module given by path (ModuleFinder._top_module_name returns the directory name; outside C15)
         how = "name" if how not in ("name", "syspath") else how
     elif target == "dotted" and opts["submodules"]:
         # an object inside the last reachable source module of the package
@@ -125,6 +127,22 @@ def _plan(case, r, roots):
 def _exc_kind(exc: BaseException) -> str:
     frames = griffe_frames(exc.__traceback__)
     return f"{type(exc).__name__}@{frames[-1] if frames else '?'}"
+
+
+def _from_analysed_code(exc: BaseException, wd: Path) -> bool:
+    import traceback
+
+    seen = set()
+    e: BaseException | None = exc
+    prefix = str(wd)
+    while e is not None and id(e) not in seen:
+        seen.add(id(e))
+        if isinstance(e, SystemExit) or "boom at import" in str(e):
+            return True
+        if any(fs.filename.startswith(prefix) for fs in traceback.extract_tb(e.__traceback__)):
+            return True
+        e = e.__cause__ or e.__context__
+    return False
 
 
 def check_case(case) -> list[Fail]:
@@ -202,7 +220,10 @@ def check_case(case) -> list[Fail]:
         if new_mods:
             fails.append(Fail("module-table", "entered-sys.modules", f"{what}: generated modules entered sys.modules with inspection disallowed: {new_mods[:5]}"))
         if expect_success:
-            if exc is not None:
+            # "compiled modules are skipped rather than imported": a compiled file inside the package must not make the
+            # load fail the way an unloadable module does (LoadingError / ImportError). Other exceptions (defects of alias
+            # or wildcard expansion, ...) are not this property's business: they are only counted (class static:outcome:*).
+            if isinstance(exc, (LoadingError, ImportError)):
                 fails.append(
                     Fail(
                         "compiled-skipped",
@@ -210,7 +231,7 @@ def check_case(case) -> list[Fail]:
                         f"{what}: sources of the package exist, yet the static load raised {type(exc).__name__}: {str(exc)[:200]}",
                     )
                 )
-            else:
+            elif exc is None:
                 coll = result.modules_collection if hasattr(result, "modules_collection") else None
                 for d in r["decoys"]:
                     try:
@@ -232,7 +253,10 @@ def check_case(case) -> list[Fail]:
                     )
                 )
     else:
-        if exc is not None and not isinstance(exc, (LoadingError, ImportError)):
+        # only exceptions that stem from the import of analysed code are judged (the injected RuntimeError / SystemExit /
+        # ModuleNotFoundError or anything raised while a generated file is on the stack); an unrelated crash inside Griffe
+        # (e.g. in wildcard expansion) is not this property's business and is only counted
+        if exc is not None and not isinstance(exc, (LoadingError, ImportError)) and _from_analysed_code(exc, wd):
             fails.append(
                 Fail(
                     "fault-exception-family",
@@ -241,6 +265,13 @@ def check_case(case) -> list[Fail]:
                 )
             )
     _LAST.clear()
+    ext_loaded = False
+    if result is not None and len(names) > 1:
+        try:
+            ext_loaded = any(n in result.modules_collection for n in names[1:])
+        except Exception:  # noqa: BLE001
+            ext_loaded = False
+    _LAST.update(fault_hit=bool(r["fault_module"]) and r["fault_module"] in executed, ext_loaded=ext_loaded)
     _LAST.update(outcome=outcome, executed=len(executed), n_modules=sum(len(m) for m in r["modules"]), n_decoys=len(r["decoys"]), fault_module=r["fault_module"])
     shutil.rmtree(wd, ignore_errors=True)
     return fails
@@ -286,13 +317,22 @@ def describe(case):
     nmods = info.get("n_modules", 0)
     if kind == "static":
         nontrivial = nmods >= 3 and o["resolve_aliases"]
+        if info.get("ext_loaded"):
+            classes.append("static:external-package-loaded-statically")
+        if len(case["pkgs"]) > 1 and o["resolve_aliases"] and pkg0["layout"] in ("pkg", "mod", "ns") and case["target"] != "missing":
+            wants = o["resolve_external"] is True or (o["resolve_external"] is None and any(p.get("sibling") for p in case["pkgs"][1:]))
+            if wants and any(p["layout"] in ("pyc", "so") for p in case["pkgs"][1:]):
+                classes.append("static:external-only-importable(pyc/so)-and-resolution-may-load-it")
         classes.append("static:modules>=3" if nmods >= 3 else "static:modules<3")
     else:
         f = case.get("fault")
         classes.append(f"fault:type:{f['type'] if f else 'none'}")
         classes.append(f"fault:force={bool(case.get('force'))}")
         classes.append("fault:bodies-ran" if info.get("executed") else "fault:nothing-imported")
-        nontrivial = bool(f) or pkg0["layout"] in ("pyc", "so") or case["target"] == "missing"
+        if f:
+            classes.append("fault:hit(faulting body ran)" if info.get("fault_hit") else "fault:not-reached")
+        # an injected fault only counts when the faulting module body actually started to run
+        nontrivial = bool(info.get("fault_hit")) or pkg0["layout"] in ("pyc", "so") or case["target"] == "missing"
     sample = None
     if nontrivial:
         sample = {"case": case, "outcome": info.get("outcome"), "fault_module": info.get("fault_module")}
